@@ -95,7 +95,7 @@ class NodeSelectorParser(object):
         return uri.replace(prefix + ":", self._prefix_namespace_dict[prefix], 1)  # only the leading prefix
 
     def _parse_sparql_expression(self, raw_selector):
-        raw_string = raw_selector.replace("SPARQL", "")
+        raw_string = raw_selector.replace("SPARQL", "", 1)  # only the leading keyword
         raw_string = raw_string.strip()
         if raw_string[0] in _QUOTES and raw_string[-1] in _QUOTES:
             try:
